@@ -47,6 +47,7 @@ def init() -> None:
     sch = json.loads((root / "generator" / "lsp.schema.json").read_text(encoding="utf-8"))
     G.update(gm=gm, attrs=attrs, ref=schema.Ref(sch), base=json.loads((root / "generator" / "lsp.json").read_text(encoding="utf-8")))
     G["classes"] = schema.violation_classes(G["ref"])
+    schema._REF_FOR_WALK[:] = [G["ref"]]
 
 
 # --------------------------------------------------------------------------------------------
@@ -387,7 +388,9 @@ def _compare_models(loads: List[Tuple[Dict[str, Any], Any]], r: random.Random, p
     if len(loads) < 2:
         return
     dj, mj = loads[-1]
-    for i in r.sample(range(len(loads) - 1), min(3, len(loads) - 1)) + [len(loads) - 1]:
+    # always the immediate predecessor (documents one edit apart), a seeded sample of older ones, and itself
+    older = list(range(len(loads) - 2))
+    for i in [len(loads) - 2] + r.sample(older, min(2, len(older))) + [len(loads) - 1]:
         di, mi = loads[i]
         probes["compares"] += 1
         try:
